@@ -65,6 +65,13 @@ impl ClusterStore {
     f.before('let mut verif_ret', "                let ghost c0 = **cluster;")
     f.loop_spec(0, "                    invariant **cluster == c0, vstd::std_specs::hash::obeys_key_model::<String>(), verif_ret matches Some(vr) ==> vr is Err,", itname='itc')
     U.add_fn(f)
+    f = X.fn('balance_masters')
+    f.r1_logging().r2_closure_underscore()
+    vlib.d8_continue(f)
+    f.header("    pub fn balance_masters(&mut self, cluster_name: String) -> (r: Result<(), MetaStoreError>)\n" + REQ)
+    # loop #0 is inside the closure failed_proxy_exists; loop #1 walks the chunks
+    f.loop_spec(1, "                    invariant forall|a: &[String; CHUNK_PARTS]| failed_proxy_exists.requires((a,)),", itname=None)
+    U.add_fn(f)
     U.add("}\n} // verus!\nfn main() {}\n")
     U.trust('ClusterConfig::set_field, ClusterStore::is_migrating, ClusterName::try_from by havoc contracts (out of reach)')
 
